@@ -137,22 +137,23 @@ Theorem kepler_equation_unique : forall e E1 E2, 0 <= e < 1 ->
 Proof. exact kepler_equation_thm. Qed.
 Print Assumptions kepler_equation_unique.
 
-(* ---- the correspondence evaluates the model: staged expressions = model, verdict 0 means "within the tolerance" *)
-Theorem model_exprs_ok : forall a e i Om om E x y z vx' vy' vz',
-  (let r := env_R (stages_R [a; e; i; Om; om; E] k2t_stages) in
-   let m := kepler2trs (Q2R GM_Q) (Kep a e i Om om E) in
+(* ---- the correspondence evaluates the model: staged expressions = model, verdict 0 means "within the tolerance";
+   for every rational GM `g` (check_k2t = check_k2t_g GM_Q; check_k2t_src n = check_k2t_g (n-th source's GM)) *)
+Theorem model_exprs_ok : forall g a e i Om om E x y z vx' vy' vz',
+  (let r := env_R (stages_R [a; e; i; Om; om; E] (k2t_stages g)) in
+   let m := kepler2trs (Q2R g) (Kep a e i Om om E) in
    eval_R r (v_ 39) = vx (fst m) /\ eval_R r (v_ 40) = vy (fst m) /\ eval_R r (v_ 41) = vz (fst m) /\
    eval_R r (v_ 42) = vx (snd m) /\ eval_R r (v_ 43) = vy (snd m) /\ eval_R r (v_ 44) = vz (snd m)) /\
-  (let r := env_R (stages_R [x; y; z; vx'; vy'; vz'] t2k_stages) in
-   let m := trs2kepler (Q2R GM_Q) (V3 x y z) (V3 vx' vy' vz') in
+  (let r := env_R (stages_R [x; y; z; vx'; vy'; vz'] (t2k_stages g)) in
+   let m := trs2kepler (Q2R g) (V3 x y z) (V3 vx' vy' vz') in
    eval_R r (v_ 15) = k_a m /\ eval_R r (v_ 21) = k_e m /\ eval_R r (v_ 17) = k_i m /\
    eval_R r (v_ 18) = k_Omega m /\ wrap_neg (eval_R r (v_ 25)) = k_omega m /\ eval_R r (v_ 22) = k_E m).
 Proof. exact model_exprs_ok_thm. Qed.
 Print Assumptions model_exprs_ok.
 
-Theorem check_k2t_sound : forall a e i Om om E px py pz qx qy qz,
-  check_k2t ([a; e; i; Om; om; E], [px; py; pz; qx; qy; qz]) = 0%Z ->
-  let m := kepler2trs (Q2R GM_Q) (Kep (dyR a) (dyR e) (dyR i) (dyR Om) (dyR om) (dyR E)) in
+Theorem check_k2t_sound : forall g a e i Om om E px py pz qx qy qz,
+  check_k2t_g g ([a; e; i; Om; om; E], [px; py; pz; qx; qy; qz]) = 0%Z ->
+  let m := kepler2trs (Q2R g) (Kep (dyR a) (dyR e) (dyR i) (dyR Om) (dyR om) (dyR E)) in
   let tp := Q2R (tol_of rel10 [px; py; pz]) in
   let tv := Q2R (tol_of rel10 [qx; qy; qz]) in
   Rabs (vx (fst m) - dyR px) <= tp /\ Rabs (vy (fst m) - dyR py) <= tp /\ Rabs (vz (fst m) - dyR pz) <= tp /\
@@ -160,9 +161,9 @@ Theorem check_k2t_sound : forall a e i Om om E px py pz qx qy qz,
 Proof. exact check_k2t_sound_thm. Qed.
 Print Assumptions check_k2t_sound.
 
-Theorem check_t2k_sound : forall px py pz qx qy qz a e i Om om E,
-  check_t2k ([px; py; pz; qx; qy; qz], [a; e; i; Om; om; E]) = 0%Z ->
-  let m := trs2kepler (Q2R GM_Q) (V3 (dyR px) (dyR py) (dyR pz)) (V3 (dyR qx) (dyR qy) (dyR qz)) in
+Theorem check_t2k_sound : forall g px py pz qx qy qz a e i Om om E,
+  check_t2k_g g ([px; py; pz; qx; qy; qz], [a; e; i; Om; om; E]) = 0%Z ->
+  let m := trs2kepler (Q2R g) (V3 (dyR px) (dyR py) (dyR pz)) (V3 (dyR qx) (dyR qy) (dyR qz)) in
   Rabs (k_a m - dyR a) <= Q2R rel10 * Rabs (dyR a) + Q2R 0 /\
   Rabs (k_e m - dyR e) <= Q2R rel10 * Rabs (dyR e) + Q2R abs12 /\
   Rabs (k_i m - dyR i) <= Q2R tol_angle /\
@@ -178,6 +179,11 @@ Print Assumptions check_t2k_sound.
 Theorem gm_positive : 0 < Q2R GM_Q.
 Proof. exact gm_pos. Qed.
 Print Assumptions gm_positive.
+
+(* ... and so is the GM of every source of constant.txt (the conversions may run inside constant.use_source(...)) *)
+Theorem gm_sources_positive : forall g d, In (g, d) GM_sources -> 0 < Q2R g.
+Proof. exact gm_sources_pos_R. Qed.
+Print Assumptions gm_sources_positive.
 
 (* ---- non-vacuity: a GPS-like orbit lies in the domain; the checks accept a correct answer and reject a wrong one *)
 Example domain_inhabited : elliptic_inclined (Kep 26559700 (1 / 100) (PI / 3) 1 4 (-2)).
